@@ -128,6 +128,13 @@ Definition pcheck (K rel : Q) (c : pcase) : bool * Z :=
     end in
   fin (merge (same_shape n (pc_H c), 0) (merge hess_ok j_ok)).
 
+(** a nested index listed twice: the model's Hessian must agree with the implementation's and be singular
+    (diff_func ignores the value at the first of the two positions: [scatter] lets the last assignment win) *)
+Definition pcheck_singular (K rel : Q) (c : pcase) : bool * Z :=
+  let r := pcheck K rel c in
+  let Hm := fst (fst (godambe_HJc (pll c) (pstart c) (pc_eps c) (pc_data c) [])) in
+  (fst r && match mat_inv Hm with None => true | Some _ => false end, snd r).
+
 (** truncation error of the model's finite differences against the closed forms, at eps and eps/2
     (pure linear model, all parameters on the central branch): exact arithmetic, so no round-off.
       err(eps) <= C * eps^2 * scale   and   err(eps/2) <= 3/10 * err(eps)   entry by entry
@@ -162,9 +169,11 @@ Definition tcheck (C : Q) (c : pcase) : bool * Z :=
 
 (** ** the statistics built from (H, J, cU): exact linear algebra on the matrices the implementation produced *)
 Record scase := {
-  sc_kind : nat;    (* 0 godambe matrix (flattened) | 1 GIM_uncert | 2 FIM_uncert | 3 LRT_adjust | 4 Wald (adj, org) | 5 score (adj, org) *)
+  sc_kind : nat;    (* 0 godambe matrix (flattened) | 1 GIM_uncert | 2 FIM_uncert | 3 LRT_adjust | 4 Wald (adj, org) | 5 score (adj, org)
+                       | 6 Wald (adj, org) from the caller's (theta_opt, p0, nested_indices, full_params) *)
   sc_H : list (list Q); sc_J : list (list Q); sc_cU : list Q; sc_d : list Q;
-  sc_vals : list Q }.
+  sc_vals : list Q;
+  sc_theta : option Q; sc_p0 : list Q; sc_idx : list nat; sc_full : list Q }.
 
 Definition sexpected (c : scase) : option (list Q) :=
   match sc_kind c with
@@ -173,8 +182,10 @@ Definition sexpected (c : scase) : option (list Q) :=
   | 2%nat => var_of (sc_H c)
   | 3%nat => match lrt_adjust (sc_H c) (sc_J c) with Some a => Some [a] | None => None end
   | 4%nat => match gim (sc_H c) (sc_J c) with Some G => Some [qform G (sc_d c); qform (sc_H c) (sc_d c)] | None => None end
-  | 5%nat => match qform_inv (sc_J c) (sc_cU c), qform_inv (sc_H c) (sc_cU c) with
-             | Some a, Some o => Some [a; o] | _, _ => None end
+  | 5%nat => match score_stat (sc_H c) (sc_J c) (sc_cU c) with Some ao => Some [fst ao; snd ao] | None => None end
+  | 6%nat => match wald_diff (sc_theta c) (sc_p0 c) (sc_idx c) (sc_full c) with
+             | Some d => match wald_stat (sc_H c) (sc_J c) d with Some ao => Some [fst ao; snd ao] | None => None end
+             | None => None end
   | _ => None
   end.
 
